@@ -309,6 +309,24 @@ pub fn parse_currency_non_commodity(input: &str) -> Result<String, ParseError> {
 
 /// Parse amount with optional decimal places
 pub fn parse_amount(input: &str) -> Result<f64, ParseError> {
+    // An amount is a plain decimal: digits with at most one decimal separator after at least
+    // one digit. (f64::from_str alone would also take "inf", "NaN", exponents and signs.)
+    let mut separators = 0;
+    let is_decimal = input.starts_with(|c: char| c.is_ascii_digit())
+        && input.chars().all(|c| match c {
+            '0'..='9' => true,
+            ',' | '.' => {
+                separators += 1;
+                separators == 1
+            }
+            _ => false,
+        });
+    if !is_decimal {
+        return Err(ParseError::InvalidFormat {
+            message: format!("Invalid amount format: '{}' is not a decimal number", input),
+        });
+    }
+
     // Remove any commas (European decimal separator handling)
     let normalized = input.replace(',', ".");
 
@@ -387,7 +405,22 @@ pub fn validate_amount_decimals(amount: f64, currency: &str) -> Result<(), Parse
 /// - Decimal precision exceeds currency limit (C03)
 pub fn parse_amount_with_currency(input: &str, currency: &str) -> Result<f64, ParseError> {
     let amount = parse_amount(input)?;
-    validate_amount_decimals(amount, currency)?;
+
+    // Count the decimals as they were written: the binary representation of a large amount
+    // (e.g. 9999999999.99) shows spurious digits when formatted with high precision.
+    let max_decimals = get_currency_decimals(currency) as usize;
+    let decimal_places = input
+        .find([',', '.'])
+        .map(|pos| input[pos + 1..].trim_end_matches('0').len())
+        .unwrap_or(0);
+    if decimal_places > max_decimals {
+        return Err(ParseError::InvalidFormat {
+            message: format!(
+                "Amount has {} decimal places but currency {} allows maximum {} (Error code: C03)",
+                decimal_places, currency, max_decimals
+            ),
+        });
+    }
     Ok(amount)
 }
 
